@@ -21,6 +21,12 @@ CHECKS = {
                      "from the AMQP specification). Decoder half: every spec-valid variant produced by Enc(v, mode) x descriptor form x trailing-null form must "
                      "decode to the same value. The oracle itself is model-checked (Dec o Enc = id for all modes) in the same run.",
                 note="trusted: reference Dec/Enc in AmqpCodec.tla (cross-checked against each other by TLC), harness transcription"),
+    "C04": dict(technique="TLA+-generated untrusted inputs (exhaustive short strings, all single-byte corruptions and truncations of seed encodings, nesting / huge-length families) run through 13 decoder entry points under panic / abort / allocation / CPU monitors; validity and meaning decided by the TLA+ reference decoder in TLC",
+                design="4/C04",
+                text="TLC enumerates the inputs of MC_Decode.tla; the harness decodes each through every public entry point in a restartable child with a 2 MiB "
+                     "stack, a counting allocator and thread-CPU timing; DecodeTrace.tla (TLC) recomputes the reference verdict from the logged bytes and evaluates "
+                     "C04_Total / C04_Alloc / C04_Cpu / C04_Idempotent / C04_AcceptsValid per record. Exhaustive for the generated space.",
+                note="trusted: the monitors (catch_unwind + child exit status, counting allocator, CLOCK_THREAD_CPUTIME); bounds 64 B/B + 32 MiB and 2 s CPU are the weaker reading of 'out of proportion'"),
     "C20": dict(technique="TLC-generated values and encodings; slice/reader/size/value-tree entry points compared by the harness, tree and bytes judged by the TLA+ decoder",
                 design="4/C20",
                 text="For every generated case: serialized_size = |to_vec|; from_slice and from_reader (chunk sizes 1,2,3,7,16,whole) agree and stop at the "
